@@ -13,8 +13,11 @@ Every `…Code` function models what the C++ (with Qt 5.15.8 underneath) does TO
 string, not only on the library's own output; the lexical details were measured on the real
 functions and are re-checked by `harness/cxx/scalars.cpp` on every run (driver ops `scalar-*` in
 Qx/Driver/ScalarOps.lean).  Two things are taken as given and stated where they matter: strings are
-well-formed UTF-16 (no lone surrogates), and a date-time without zone designator — local time in
-Qt — is read as UTC (the harness runs with TZ=UTC).  `…Spec` functions are the
+well-formed UTF-16 (no lone surrogates), and the reading process's zone has ONE offset from UTC for
+all dates (`loc`, a parameter of `dtParseCodeAt`/`splitZone`: 0 for a process in UTC, 19800 for the
+zone harness/cxx/scalars.cpp runs in, Asia/Kolkata) — it matters only for date-times WITHOUT zone
+designator, which Qt reads as local time.  `Stamp`/`stampToStr` model `datetimeToString` on a
+QDateTime of any time spec (UTC, local, fixed offset, time zone).  `…Spec` functions are the
 strict lexical forms (what the XEPs / XML Schema allow).  Strings are `List Char` (code points);
 where Qt indexes UTF-16 code units (`units`) that is modelled explicitly.
 
